@@ -1,7 +1,7 @@
 // Package vatomic mirrors the part of sync/atomic that taskctl uses.
 package vatomic
 
-import "github.com/taskctl/taskctl/internal/vrt"
+import "github.com/taskctl/taskctl/vrt"
 
 func LoadInt32(addr *int32) int32 {
 	vrt.AtomicOp(addr, "LoadInt32", func() uint64 { return uint64(uint32(*addr)) })
